@@ -770,6 +770,10 @@ class StmtMixin:
                                       z3.And(bn(kk) >= 0, bn(kk) <= G, boff(kk) >= 0, boff(kk) + bn(kk) <= N,
                                              z3.Implies(kk >= 1, bn(kk) >= S), boff(kk) == smt.som(kk * (G - S)))))
         body_st.assume(z3.Implies(k + 1 < K, boff(k + 1) == boff(k) + bn(k) - S))
+        # the same step in units of array elements (consumers index by sample * nchans): a consequence of the line above
+        # multiplied by nchans, stated so that no distribution of a product over a sum is left to the solver
+        body_st.assume(z3.Implies(k + 1 < K, nchans * boff(k + 1) == nchans * boff(k) + nchans * bn(k) - nchans * S))
+        body_st.assume(z3.Implies(k + 1 == K, z3.And(boff(k) + bn(k) == N, nchans * boff(k) + nchans * bn(k) == nchans * N)))
         self.assume_invs(body_st, spec)
         self.cover(body_st, f"loop-body#{lid}", line)
         later = body_st.fork()
